@@ -90,7 +90,7 @@ PROPS = {
     ),
     "C02": dict(
         thm=["Bgpfu.Thm.C02"],
-        ops=[("plan", ["prop=C02", "variant=fixed"])],
+        ops=[("plan", ["prop=C02", "variant=fixed"]), ("e2e", ["c02"])],
         level_text="Theorems (for the repaired and the pinned writer alike): from every agent state, each single emitted update "
                    "loads and leaves a policy whose accepting terms each have one of the two families and a non-empty route-filter "
                    "list inside the evaluated set of that family, ending in an unconditional reject (each_update_safe); the same "
